@@ -1,65 +1,11 @@
-(* C07 — stage 2, first part: the order statistics PD added to google/btree (`indices`, GetAt, GetWithIndex).
+(* C07 — stage 2: the order statistics PD added to google/btree (`indices`).
    `indices[i] = size(children[0]) + ... + size(children[i]) + i` is the position of item i in the in-order walk.
-   Part A: every bookkeeping function of `indices` (transcribed as list functions; bodies tied in proof/C07_Skel.v)
-   implements the obvious operation on the list of child sizes.
-   Part B: on any node whose `indices` satisfy that equation, `getAt k` is the k-th element of the in-order walk.
-   The structural operations (split / steal / merge on nodes) are NOT modelled here: for them L0 = pkg/btree rests on
-   the differential check (degrees 2,3,4,64). *)
+   Every bookkeeping function of `indices` (model/C07_BTree.v: ix_*; transcribed as list functions, bodies tied in
+   proof/C07_Skel.v) implements the obvious operation on the list of child sizes.  Used by proof/C07_BTreeRefine.v. *)
 From Coq Require Import List ZArith Lia Bool.
+From PDV Require Import model.C07_BTreeSpec model.C07_BTree.
 Import ListNotations.
 Local Open Scope Z_scope.
-
-(* ---------------------------------------------------------------------------------------- *)
-(* Part A                                                                                     *)
-Fixpoint idx_from (acc : Z) (sizes : list Z) : list Z :=
-  match sizes with
-  | [] => []
-  | s :: r => (acc + s) :: idx_from (acc + s + 1) r
-  end.
-Definition idx_of (sizes : list Z) : list Z := idx_from 0 sizes.
-
-(* func (s *indices) addAt(index, delta): every entry from index on grows by delta *)
-Fixpoint add_at (index : nat) (delta : Z) (s : list Z) : list Z :=
-  match s, index with
-  | [], _ => []
-  | x :: r, O => (x + delta) :: add_at O delta r
-  | x :: r, S j => x :: add_at j delta r
-  end.
-
-(* func (s *indices) insertAt(index, sz) *)
-Definition insert_at (index : nat) (sz : Z) (s : list Z) : list Z :=
-  firstn index s
-  ++ (match index with O => sz | S p => nth p s 0 + sz + 1 end)
-  :: map (fun v => v + sz + 1) (skipn index s).
-
-(* func (s *indices) push(sz) *)
-Definition push (sz : Z) (s : list Z) : list Z :=
-  match s with [] => [sz] | _ => s ++ [last s 0 + 1 + sz] end.
-
-Fixpoint upd_nth (i : nat) (f : Z -> Z) (l : list Z) : list Z :=
-  match l, i with
-  | [], _ => []
-  | x :: r, O => f x :: r
-  | x :: r, S j => x :: upd_nth j f r
-  end.
-
-(* func (s *indices) split(index, nextSize): insertAt(index+1, -1); s[index] -= 1 + nextSize *)
-Definition split (index : nat) (next_size : Z) (s : list Z) : list Z :=
-  upd_nth index (fun v => v - (1 + next_size)) (insert_at (S index) (-1) s).
-
-(* func (s *indices) merge(index): entries index+1.. move one slot down, the last slot is dropped *)
-Definition merge (index : nat) (s : list Z) : list Z := firstn index s ++ skipn (S index) s.
-
-(* func (s *indices) removeAt(index) *)
-Definition remove_at (index : nat) (s : list Z) : Z * list Z :=
-  let sz := match index with O => nth 0 s 0 | S p => nth index s 0 - nth p s 0 - 1 end in
-  (sz, firstn index s ++ map (fun v => v - sz - 1) (skipn (S index) s)).
-
-(* func (s *indices) pop() *)
-Definition pop (s : list Z) : Z * list Z :=
-  let l := length s in
-  let out := nth (l - 1) s 0 in
-  ((if Nat.eqb l 1 then out else out - (nth (l - 2) s 0 + 1)), removelast s).
 
 (* ---- the size-list specification ---- *)
 Lemma fold_add_acc l z : fold_right Z.add z l = fold_right Z.add 0 l + z.
@@ -90,9 +36,9 @@ Proof.
 Qed.
 
 Theorem add_at_spec a s b d acc :
-  add_at (length a) d (idx_from acc (a ++ s :: b)) = idx_from acc (a ++ (s + d) :: b).
+  ix_add_at (length a) d (idx_from acc (a ++ s :: b)) = idx_from acc (a ++ (s + d) :: b).
 Proof.
-  revert acc. induction a as [|x a IH]; intros acc; cbn [app idx_from length add_at].
+  revert acc. induction a as [|x a IH]; intros acc; cbn [app idx_from length ix_add_at].
   - f_equal; [lia|]. replace (acc + (s + d) + 1) with ((acc + s + 1) + d) by lia.
     rewrite (idx_from_shift (acc + s + 1) d b).
     generalize (idx_from (acc + s + 1) b). intros l. induction l as [|y l IHl]; cbn; [reflexivity|]. rewrite IHl. reflexivity.
@@ -100,9 +46,9 @@ Proof.
 Qed.
 
 Theorem insert_at_spec a b sz :
-  insert_at (length a) sz (idx_of (a ++ b)) = idx_of (a ++ sz :: b).
+  ix_insert_at (length a) sz (idx_of (a ++ b)) = idx_of (a ++ sz :: b).
 Proof.
-  unfold insert_at, idx_of. rewrite !idx_from_app. cbn [idx_from].
+  unfold ix_insert_at, idx_of. rewrite !idx_from_app. cbn [idx_from].
   rewrite firstn_app, idx_from_length, Nat.sub_diag, firstn_O, app_nil_r, firstn_all2 by (rewrite idx_from_length; lia).
   rewrite skipn_app, idx_from_length, Nat.sub_diag, skipn_O, skipn_all2 by (rewrite idx_from_length; lia). cbn [app].
   f_equal. f_equal.
@@ -117,9 +63,9 @@ Proof.
     rewrite (idx_from_shift (0 + fold_right Z.add 0 a + Z.of_nat (length a)) (sz + 1) b). apply map_ext. intros v; lia.
 Qed.
 
-Theorem push_spec ss sz : push sz (idx_of ss) = idx_of (ss ++ [sz]).
+Theorem push_spec ss sz : ix_push sz (idx_of ss) = idx_of (ss ++ [sz]).
 Proof.
-  unfold push, idx_of. rewrite idx_from_app. cbn [idx_from].
+  unfold ix_push, idx_of. rewrite idx_from_app. cbn [idx_from].
   destruct ss as [|x r]; [cbn; f_equal; lia|].
   destruct (idx_from 0 (x :: r)) as [|y l] eqn:E; [cbn in E; discriminate|]. rewrite <- E. f_equal. f_equal.
   destruct (@exists_last _ (x :: r) ltac:(discriminate)) as (a0 & sl & E'). rewrite E'.
@@ -129,9 +75,9 @@ Proof.
 Qed.
 
 Theorem merge_spec a s1 s2 b :
-  merge (length a) (idx_of (a ++ s1 :: s2 :: b)) = idx_of (a ++ (s1 + 1 + s2) :: b).
+  ix_merge (length a) (idx_of (a ++ s1 :: s2 :: b)) = idx_of (a ++ (s1 + 1 + s2) :: b).
 Proof.
-  unfold merge, idx_of. rewrite !idx_from_app. cbn [idx_from].
+  unfold ix_merge, idx_of. rewrite !idx_from_app. cbn [idx_from].
   rewrite firstn_app, idx_from_length, Nat.sub_diag, firstn_O, app_nil_r, firstn_all2 by (rewrite idx_from_length; lia).
   f_equal.
   replace (S (length a)) with (length (idx_from 0 a) + 1)%nat by (rewrite idx_from_length; lia).
@@ -141,9 +87,9 @@ Proof.
 Qed.
 
 Theorem remove_at_spec a s b :
-  remove_at (length a) (idx_of (a ++ s :: b)) = (s, idx_of (a ++ b)).
+  ix_remove_at (length a) (idx_of (a ++ s :: b)) = (s, idx_of (a ++ b)).
 Proof.
-  unfold remove_at, idx_of.
+  unfold ix_remove_at, idx_of.
   assert (SZ : match length a with
                | O => nth 0 (idx_from 0 (a ++ s :: b)) 0
                | S p => nth (length a) (idx_from 0 (a ++ s :: b)) 0 - nth p (idx_from 0 (a ++ s :: b)) 0 - 1
@@ -168,9 +114,9 @@ Proof.
 Qed.
 
 Theorem split_spec a s b nxt :
-  split (length a) nxt (idx_of (a ++ s :: b)) = idx_of (a ++ (s - 1 - nxt) :: nxt :: b).
+  ix_split (length a) nxt (idx_of (a ++ s :: b)) = idx_of (a ++ (s - 1 - nxt) :: nxt :: b).
 Proof.
-  unfold split.
+  unfold ix_split.
   replace (S (length a)) with (length (a ++ [s])) by (rewrite app_length; cbn; lia).
   replace (a ++ s :: b) with ((a ++ [s]) ++ b) by (rewrite <- app_assoc; reflexivity).
   rewrite insert_at_spec. rewrite <- app_assoc. cbn [app].
@@ -180,9 +126,9 @@ Proof.
   rewrite <- (idx_from_length 0 a) at 1. rewrite U. f_equal. f_equal; [lia|]. f_equal; [lia|]. f_equal. lia.
 Qed.
 
-Theorem pop_spec a s : pop (idx_of (a ++ [s])) = (s, idx_of a).
+Theorem pop_spec a s : ix_pop (idx_of (a ++ [s])) = (s, idx_of a).
 Proof.
-  unfold pop, idx_of. rewrite idx_from_app. cbn [idx_from]. rewrite removelast_last.
+  unfold ix_pop, idx_of. rewrite idx_from_app. cbn [idx_from]. rewrite removelast_last.
   rewrite app_length, idx_from_length. cbn [length].
   replace (length a + 1 - 1)%nat with (length a) by lia.
   rewrite app_nth2 by (rewrite idx_from_length; lia). rewrite idx_from_length, Nat.sub_diag. cbn [nth].
@@ -195,205 +141,3 @@ Proof.
   rewrite (fold_add_acc a0 (sl + 0)). lia.
 Qed.
 
-(* ---------------------------------------------------------------------------------------- *)
-(* Part B: getAt on a node with correct indices                                               *)
-Section GetAt.
-  Context {A : Type}.
-
-  Inductive bnode := BNode (its : list A) (ch : list bnode) (idx : list Z).
-
-  Lemma bnode_ind' (P : bnode -> Prop) :
-    (forall its ch idx, Forall P ch -> P (BNode its ch idx)) -> forall n, P n.
-  Proof.
-    intros H. fix IH 1. intros [its ch idx]. apply H.
-    induction ch as [|c ch IHch]; constructor; [apply IH|exact IHch].
-  Qed.
-
-  (* in-order walk *)
-  Fixpoint flatten (n : bnode) : list A :=
-    let fix inter (its : list A) (cs : list bnode) {struct cs} : list A :=
-        match cs with
-        | [] => []
-        | c :: cs' => match its with
-                      | [] => flatten c
-                      | i :: its' => flatten c ++ i :: inter its' cs'
-                      end
-        end in
-    match n with
-    | BNode its ch idx => match ch with [] => its | _ => inter its ch end
-    end.
-
-  Fixpoint inter (its : list A) (cs : list bnode) {struct cs} : list A :=
-    match cs with
-    | [] => []
-    | c :: cs' => match its with
-                  | [] => flatten c
-                  | i :: its' => flatten c ++ i :: inter its' cs'
-                  end
-    end.
-
-  Lemma flatten_node its c cs idx : flatten (BNode its (c :: cs) idx) = inter its (c :: cs).
-  Proof. reflexivity. Qed.
-
-  (* node.length() *)
-  Definition bsize (n : bnode) : Z :=
-    match n with BNode its ch idx => match idx with [] => Z.of_nat (length its) | _ => last idx 0 end end.
-
-  (* sort.SearchInts(s, k) on an ascending slice: the smallest i with s[i] >= k *)
-  Fixpoint search_ints (s : list Z) (k : Z) : nat :=
-    match s with [] => O | x :: r => if k <=? x then O else S (search_ints r k) end.
-
-  (* func (n *node) getAt(k) *)
-  Fixpoint get_at (n : bnode) (k : Z) : option A :=
-    match n with
-    | BNode its ch idx =>
-        if (bsize n <=? k) || (k <? 0) then None
-        else match ch with
-             | [] => nth_error its (Z.to_nat k)
-             | _ =>
-                 let i := search_ints idx k in
-                 if nth i idx 0 =? k then nth_error its i
-                 else (fix pick (cs : list bnode) (j : nat) : option A :=
-                         match cs with
-                         | [] => None
-                         | c :: cs' =>
-                             match j with
-                             | O => get_at c (match i with O => k | S p => k - nth p idx 0 - 1 end)
-                             | S j' => pick cs' j'
-                             end
-                         end) ch i
-             end
-    end.
-
-  Definition fsize (c : bnode) : Z := Z.of_nat (length (flatten c)).
-
-  (* the size equation of pkg/btree's comment, recursively *)
-  Inductive wf : bnode -> Prop :=
-  | wf_leaf its : wf (BNode its [] [])
-  | wf_node its ch : length ch = S (length its) -> Forall wf ch ->
-                     wf (BNode its ch (idx_of (map fsize ch))).
-
-  Lemma inter_length its cs : length cs = S (length its) ->
-    Z.of_nat (length (inter its cs)) = fold_right Z.add 0 (map fsize cs) + Z.of_nat (length its).
-  Proof.
-    revert its. induction cs as [|c cs IH]; intros its L; [discriminate|]. cbn [inter map fold_right].
-    destruct its as [|i its'].
-    - destruct cs; [|discriminate]. cbn. unfold fsize. lia.
-    - cbn in L. rewrite app_length. cbn [length]. rewrite Nat2Z.inj_add, Nat2Z.inj_succ, IH by lia. unfold fsize. cbn [length]. lia.
-  Qed.
-
-  Lemma last_idx_from acc ss d : ss <> [] ->
-    last (idx_from acc ss) d = acc + fold_right Z.add 0 ss + Z.of_nat (length ss) - 1.
-  Proof.
-    revert acc. induction ss as [|s r IH]; intros acc NE; [contradiction|]. cbn [idx_from].
-    destruct r as [|s2 r2]; [cbn; lia|].
-    change (last ((acc + s) :: idx_from (acc + s + 1) (s2 :: r2)) d) with (last (idx_from (acc + s + 1) (s2 :: r2)) d).
-    rewrite IH by discriminate. cbn [fold_right length]. lia.
-  Qed.
-
-  Lemma bsize_wf n : wf n -> bsize n = fsize n.
-  Proof.
-    intros W. destruct W as [its|its ch L F]; [reflexivity|].
-    destruct ch as [|c cs]; [discriminate|]. unfold fsize. rewrite flatten_node, (inter_length _ _ L).
-    change (last (idx_from 0 (map fsize (c :: cs))) 0 = fold_right Z.add 0 (map fsize (c :: cs)) + Z.of_nat (length its)).
-    rewrite last_idx_from by discriminate. rewrite map_length. cbn [length] in *. lia.
-  Qed.
-
-  (* the arithmetic of one descent step, with the positions shifted by acc *)
-  Lemma inter_nth its cs acc k : length cs = S (length its) -> 0 <= k < Z.of_nat (length (inter its cs)) ->
-    let idx := idx_from acc (map fsize cs) in
-    let i := search_ints idx (k + acc) in
-    if nth i idx 0 =? k + acc
-    then nth_error (inter its cs) (Z.to_nat k) = nth_error its i
-    else exists c, nth_error cs i = Some c /\
-         nth_error (inter its cs) (Z.to_nat k) =
-         nth_error (flatten c) (Z.to_nat (k + acc - match i with O => acc | S p => nth p idx 0 + 1 end)).
-  Proof.
-    revert its acc k. induction cs as [|c cs IH]; intros its acc k L K; [discriminate|].
-    cbn [map idx_from search_ints]. cbn zeta.
-    destruct (Z.leb_spec (k + acc) (acc + fsize c)) as [LE|GT].
-    - cbn [nth]. destruct (Z.eqb_spec (acc + fsize c) (k + acc)) as [E|NE].
-      + (* item 0 *)
-        destruct its as [|i0 its']; cbn [inter] in *.
-        * unfold fsize in E. lia.
-        * rewrite nth_error_app2 by (unfold fsize in E; lia).
-          replace (Z.to_nat k - length (flatten c))%nat with O by (unfold fsize in E; lia). reflexivity.
-      + exists c. split; [reflexivity|]. replace (k + acc - acc) with k by lia.
-        destruct its as [|i0 its']; cbn [inter]; [reflexivity|].
-        apply nth_error_app1. unfold fsize in *. lia.
-    - (* further right *)
-      destruct its as [|i0 its']; cbn [inter] in K |- *.
-      + unfold fsize in GT. lia.
-      + cbn in L. rewrite app_length in K. cbn [length] in K.
-        assert (K' : 0 <= k - fsize c - 1 < Z.of_nat (length (inter its' cs))) by (unfold fsize in *; lia).
-        specialize (IH its' (acc + fsize c + 1) (k - fsize c - 1) ltac:(lia) K'). cbn zeta in IH.
-        replace (k - fsize c - 1 + (acc + fsize c + 1)) with (k + acc) in IH by lia.
-        set (i' := search_ints (idx_from (acc + fsize c + 1) (map fsize cs)) (k + acc)) in *.
-        cbn [nth].
-        assert (NE : nth_error (flatten c ++ i0 :: inter its' cs) (Z.to_nat k)
-                     = nth_error (inter its' cs) (Z.to_nat (k - fsize c - 1))).
-        { rewrite nth_error_app2 by (unfold fsize in *; lia).
-          replace (Z.to_nat k - length (flatten c))%nat with (S (Z.to_nat (k - fsize c - 1))) by (unfold fsize in *; lia). reflexivity. }
-        rewrite NE.
-        destruct (nth i' (idx_from (acc + fsize c + 1) (map fsize cs)) 0 =? k + acc); [exact IH|].
-        destruct IH as (c' & Hc' & E'). exists c'. split; [exact Hc'|]. rewrite E'. f_equal. f_equal.
-        destruct i' as [|p]; cbn [nth]; lia.
-  Qed.
-
-  Definition child_off (idx : list Z) (i : nat) (k : Z) : Z :=
-    match i with O => k | S p => k - nth p idx 0 - 1 end.
-
-  Lemma get_at_node its c cs idx k :
-    get_at (BNode its (c :: cs) idx) k =
-    if (bsize (BNode its (c :: cs) idx) <=? k) || (k <? 0) then None
-    else let i := search_ints idx k in
-         if nth i idx 0 =? k then nth_error its i
-         else match nth_error (c :: cs) i with
-              | Some c' => get_at c' (child_off idx i k)
-              | None => None
-              end.
-  Proof.
-    cbn [get_at]. destruct ((bsize (BNode its (c :: cs) idx) <=? k) || (k <? 0)); [reflexivity|].
-    cbn zeta. destruct (nth (search_ints idx k) idx 0 =? k); [reflexivity|].
-    fold (child_off idx (search_ints idx k) k). generalize (child_off idx (search_ints idx k) k). intros kk.
-    destruct (search_ints idx k) as [|j]; [reflexivity|]. cbn [nth_error]. revert j. clear.
-    induction cs as [|c1 l IH]; intros j; [destruct j; reflexivity|]. destruct j as [|j']; [reflexivity|]. cbn [nth_error]. apply IH.
-  Qed.
-
-  Lemma search_ints_before s kk q : search_ints s kk = S q -> nth q s 0 < kk.
-  Proof.
-    revert q. induction s as [|x s IHs]; intros q Hs; [discriminate|]. cbn [search_ints] in Hs.
-    destruct (kk <=? x) eqn:LE; [discriminate|]. apply Z.leb_gt in LE.
-    injection Hs as Hq. destruct q as [|q']; cbn [nth]; [exact LE|]. apply IHs. exact Hq.
-  Qed.
-
-  Theorem get_at_spec n : wf n -> forall k, 0 <= k -> get_at n k = nth_error (flatten n) (Z.to_nat k).
-  Proof.
-    induction n as [its ch idx IHch] using bnode_ind'. intros W k K0.
-    pose proof (bsize_wf _ W) as BS. inversion W as [its0|its0 ch0 L F]; subst.
-    - cbn [get_at flatten]. cbn [bsize] in *.
-      destruct (Z.leb_spec (Z.of_nat (length its)) k) as [GE|LT]; cbn [orb].
-      + symmetry. apply nth_error_None. lia.
-      + replace (k <? 0) with false by (symmetry; apply Z.ltb_ge; lia). reflexivity.
-    - destruct ch as [|c cs]; [discriminate|].
-      rewrite get_at_node, BS.
-      replace (fsize (BNode its (c :: cs) (idx_of (map fsize (c :: cs))))) with (Z.of_nat (length (inter its (c :: cs)))) by reflexivity.
-      rewrite flatten_node.
-      destruct (Z.leb_spec (Z.of_nat (length (inter its (c :: cs)))) k) as [GE|LT]; cbn [orb].
-      + symmetry. apply nth_error_None. lia.
-      + replace (k <? 0) with false by (symmetry; apply Z.ltb_ge; lia).
-        assert (K : 0 <= k < Z.of_nat (length (inter its (c :: cs)))) by lia.
-        pose proof (inter_nth its (c :: cs) 0 k L K) as H. cbn zeta in H. rewrite Z.add_0_r in H.
-        fold (idx_of (map fsize (c :: cs))) in H. cbn zeta.
-        set (idx := idx_of (map fsize (c :: cs))) in *.
-        set (i := search_ints idx k) in *.
-        destruct (nth i idx 0 =? k); [symmetry; exact H|].
-        destruct H as (c' & Hc' & E). rewrite Hc', E.
-        assert (OFF : 0 <= child_off idx i k).
-        { unfold child_off. destruct i as [|p] eqn:EI; [lia|]. pose proof (search_ints_before idx k p EI). lia. }
-        replace (k - match i with O => 0 | S p => nth p idx 0 + 1 end) with (child_off idx i k)
-          by (unfold child_off; destruct i; lia).
-        rewrite Forall_forall in IHch, F. apply IHch; [eapply nth_error_In; eauto| |exact OFF].
-        apply F. eapply nth_error_In; eauto.
-  Qed.
-End GetAt.
